@@ -13,6 +13,8 @@
 #include <cstdlib>
 #include <cstring>
 #include <csetjmp>
+#include <sys/wait.h>
+#include <unistd.h>
 #include <array>
 #include <cerrno>
 #include <clocale>
@@ -605,7 +607,7 @@ struct Viol { string cls, detail; int op_index = -1; };
 
 struct Stats {
     uint64_t plans = 0, ops = 0, kind[NKINDS] = { 0 }, is_email_exec = 0, is_email_skipped = 0, refs = 0;
-    uint64_t fault_attached = 0, fault_fired = 0, fired_buf[3] = { 0 }, sf_attached = 0, sf_fired = 0, af_attached = 0, af_fired = 0, af_aborted = 0, af_not_comparable = 0;
+    uint64_t fault_attached = 0, fault_fired = 0, fired_buf[3] = { 0 }, sf_attached = 0, sf_fired = 0, af_attached = 0, af_fired = 0, af_aborted = 0, af_not_comparable = 0, pristine_cmp = 0, pristine_plans = 0, pristine_failed = 0;
     std::map<int, uint64_t> fired_code;
     uint64_t mode_switch[5][4] = { { 0 } };     // from (none=4) -> to, followed by an executed IS_EMAIL
     uint64_t setup_ok = 0, setup_invalid = 0, free_init = 0, errstr_checked = 0, errstr_after_other = 0;
@@ -657,6 +659,9 @@ struct Exec {
     bool is_idnkit;
     int def_rfc = 0, def_tld = 0, def_allow = 0;
     std::map<RefKey, Outcome> ref_pre;
+    bool pristine_pending = false, pristine_got = false;   // the same references, taken by a process that never used the library before, are on their way
+    std::map<RefKey, Outcome> pristine_map; const std::map<RefKey, Outcome> *pristine = nullptr;
+    bool refs_only = false;                                 // (that process: stop after the pre-pass)
     bool nontrivial_cmp = false, any_state_change = false, any_fired = false, any_sf_fired = false;
     vector<char *> abuf;        // reused caller buffers (amode 1/2): same pointer, new content, stale tail after the NUL
     char *tight = nullptr;      // amode 0: exact-size block, freed after the call (ASan sees any read past the terminator)
@@ -882,6 +887,20 @@ struct Exec {
         // pre-pass that replayed the history's own order would be wrong in exactly the same way
         for (size_t i = keys.size(); i-- > 0; ) if (!ref_pre.count(keys[i])) ref_pre[keys[i]] = run_ref(keys[i]);
         rec("REFS " + std::to_string(ref_pre.size()), "REFS " + std::to_string(ref_pre.size()));
+        if (refs_only) { for (void *e : store) free(e); store.clear(); for (char *b : abuf) free(b); abuf.clear(); return; }
+        // ---- a fresh object must not know what this PROCESS did before: compare with the pristine process's answers
+        if (pristine_pending) { pristine_pending = false; extern bool pristine_response_fwd(std::map<RefKey, Outcome> &); if (pristine_response_fwd(pristine_map)) { pristine = &pristine_map; pristine_got = true; } }
+        if (pristine) for (auto &kv : ref_pre) {
+            auto it = pristine->find(kv.first);
+            if (it == pristine->end()) continue;
+            ST.pristine_cmp++;
+            if (kv.first.mf && kv.second.af_sig != it->second.af_sig) continue;
+            string why;
+            if (!kv.second.same(it->second, why)) {
+                viol("C13:fresh-object-outcome-changed-by-history", "a fresh object decides '" + kv.first.a + "' differently in this process than in a process that never used the library before (" + why + "): here {" + kv.second.str() + "} pristine process {" + it->second.str() + "}");
+                break;
+            }
+        }
 
         // ---- the history
         for (size_t i = 0; i < plan.ops.size() && viols.empty(); i++) {
@@ -1233,11 +1252,103 @@ static bool run_sweep(const Plan &p, vector<Viol> &viols, Plan &derived) {
     return true;
 }
 
+// ------------------------------------------------------------------ pristine-process references
+// "A fresh object" is only as fresh as the process around it: state the library keeps per thread or per process reaches it
+// too.  A zygote is forked off before this process makes its first library call; for every plan it forks a child that has
+// never used the library, lets it take the plan's reference outcomes and sends them back.
+static int g_zy_req = -1, g_zy_resp = -1; static pid_t g_zy_pid = -1;
+static void put_u32(string &b, uint32_t v) { b.append((const char *)&v, 4); }
+static void put_i64(string &b, long long v) { b.append((const char *)&v, 8); }
+static void put_str(string &b, const string &x) { put_u32(b, (uint32_t)x.size()); b += x; }
+struct Rd { const string &b; size_t at = 0; bool ok = true;
+    uint32_t u32() { uint32_t v = 0; if (at + 4 > b.size()) { ok = false; return 0; } memcpy(&v, b.data() + at, 4); at += 4; return v; }
+    long long i64() { long long v = 0; if (at + 8 > b.size()) { ok = false; return 0; } memcpy(&v, b.data() + at, 8); at += 8; return v; }
+    string str() { uint32_t n = u32(); if (!ok || at + n > b.size()) { ok = false; return ""; } string x = b.substr(at, n); at += n; return x; } };
+static bool write_all(int fd, const char *p, size_t n) { while (n) { ssize_t k = write(fd, p, n); if (k <= 0) { if (k < 0 && errno == EINTR) continue; return false; } p += k; n -= (size_t)k; } return true; }
+static bool read_all(int fd, char *p, size_t n) { while (n) { ssize_t k = read(fd, p, n); if (k <= 0) { if (k < 0 && errno == EINTR) continue; return false; } p += k; n -= (size_t)k; } return true; }
+static string pack_refs(const std::map<RefKey, Outcome> &m) {
+    string b; put_u32(b, (uint32_t)m.size());
+    for (auto &kv : m) {
+        const RefKey &k = kv.first; const Outcome &o = kv.second;
+        put_i64(b, k.mode); put_i64(b, k.tld); put_i64(b, k.allow); put_str(b, k.a); put_i64(b, k.f_on); put_i64(b, k.code); put_i64(b, k.buf); put_i64(b, k.at); put_i64(b, k.mf);
+        put_i64(b, o.ret); put_i64(b, o.errcode); put_str(b, o.errstr); put_i64(b, o.errstr_null); put_i64(b, o.present); put_i64(b, o.v4); put_i64(b, o.v6); put_i64(b, o.dom); put_i64(b, o.rc); put_i64(b, o.idn_rc);
+        put_i64(b, o.has_extra); put_i64(b, o.lp_null); put_i64(b, o.dm_null); put_str(b, o.lpart); put_str(b, o.domain); put_i64(b, o.aborted); put_i64(b, o.alloc_fired); put_str(b, o.af_sig);
+    }
+    return b;
+}
+static bool unpack_refs(const string &b, std::map<RefKey, Outcome> &m) {
+    Rd r{ b }; uint32_t n = r.u32();
+    for (uint32_t i = 0; i < n && r.ok; i++) {
+        RefKey k; Outcome o;
+        k.mode = (int)r.i64(); k.tld = (int)r.i64(); k.allow = r.i64(); k.a = r.str(); k.f_on = r.i64() != 0; k.code = (int)r.i64(); k.buf = (int)r.i64(); k.at = (int)r.i64(); k.mf = (int)r.i64();
+        o.ret = (int)r.i64(); o.errcode = (int)r.i64(); o.errstr = r.str(); o.errstr_null = r.i64() != 0; o.present = (int)r.i64(); o.v4 = (int)r.i64(); o.v6 = (int)r.i64(); o.dom = (int)r.i64(); o.rc = (int)r.i64(); o.idn_rc = (long)r.i64();
+        o.has_extra = (int)r.i64(); o.lp_null = r.i64() != 0; o.dm_null = r.i64() != 0; o.lpart = r.str(); o.domain = r.str(); o.aborted = r.i64() != 0; o.alloc_fired = r.i64() != 0; o.af_sig = r.str();
+        if (r.ok) m[k] = o;
+    }
+    return r.ok;
+}
+static void zygote_child_loop(int req, int resp) {
+    // the next pristine child is forked while the previous plan is still being executed by the worker: it then waits for its request
+    for (;;) {
+        pid_t c = fork();
+        if (c == 0) {
+            uint32_t n = 0;
+            if (!read_all(req, (char *)&n, 4)) _exit(7);          // the worker is gone
+            string js(n, '\0');
+            if (n && !read_all(req, &js[0], n)) _exit(7);
+            string out;
+            g_abort_armed = true;
+            if (setjmp(g_abort_jmp) == 0) {
+                Plan p = plan_from_json(sj::parse(js));
+                Exec *ex = new Exec(p, false); ex->refs_only = true; ex->run();
+                out = pack_refs(ex->ref_pre);
+            } else out.clear();
+            uint32_t len = (uint32_t)out.size();
+            string msg((const char *)&len, 4); msg += out;
+            write_all(resp, msg.data(), msg.size());
+            _exit(0);
+        }
+        int st = 0; if (c > 0) waitpid(c, &st, 0);
+        if (c > 0 && WIFEXITED(st) && WEXITSTATUS(st) == 7) _exit(0);
+        if (c <= 0 || !WIFEXITED(st) || WEXITSTATUS(st) != 0) { uint32_t len = 0xFFFFFFFFu; write_all(resp, (const char *)&len, 4); if (c <= 0) _exit(0); }
+    }
+}
+static void zygote_start() {
+    int a[2], b[2];
+    if (pipe(a) != 0 || pipe(b) != 0) return;
+    fflush(stdout); fflush(stderr);
+    pid_t z = fork();
+    if (z < 0) return;
+    if (z == 0) { close(a[1]); close(b[0]); zygote_child_loop(a[0], b[1]); _exit(0); }
+    close(a[0]); close(b[1]); g_zy_req = a[1]; g_zy_resp = b[0]; g_zy_pid = z;
+}
+static bool pristine_request(const Plan &p) {
+    if (g_zy_req < 0) return false;
+    string js = sj::dump(plan_to_json(p)); uint32_t n = (uint32_t)js.size();
+    if (!write_all(g_zy_req, (const char *)&n, 4) || !write_all(g_zy_req, js.data(), js.size())) { g_zy_req = -1; return false; }
+    return true;
+}
+static bool pristine_response(std::map<RefKey, Outcome> &m) {
+    uint32_t len = 0;
+    if (!read_all(g_zy_resp, (char *)&len, 4)) { g_zy_req = -1; return false; }
+    if (len == 0xFFFFFFFFu) return false;          // the pristine child died: whatever killed it will kill the ordinary pre-pass too
+    string buf(len, '\0');
+    if (len && !read_all(g_zy_resp, &buf[0], len)) { g_zy_req = -1; return false; }
+    return len > 0 && unpack_refs(buf, m);
+}
+
+bool pristine_response_fwd(std::map<RefKey, Outcome> &m) { return pristine_response(m); }
+
 // Runs one plan; returns true when no violation.  Sanitizer reports kill the process
 // (exit 77) and are classified by the driver from the B line in flight.
 static vector<string> g_last_nlog;
 static bool run_plan(const Plan &p, bool want_log, vector<Viol> &viols, uint64_t &hl, uint64_t &hn, vector<string> *logout, bool count_stats = true) {
     Exec *ex = new Exec(p, want_log);
+    // asked for now, collected after this process's own pre-pass: the two run side by side
+    // (one plan in three, chosen by the plan's own index so that a replay decides the same way: a pristine child costs about
+    // as much as the plan itself)
+    bool asked = g_zy_req >= 0 && p.ops.size() <= 3000 && (p.index % 3) == 0 && pristine_request(p);
+    ex->pristine_pending = asked;
     g_abort_armed = true;
     int j = setjmp(g_abort_jmp);
     if (j == 0) {
@@ -1247,6 +1358,8 @@ static bool run_plan(const Plan &p, bool want_log, vector<Viol> &viols, uint64_t
         ex->viol(j == 1 ? "C13:abort-inside-library" : "assertion-failure-inside-library", g_abort_what);
     }
     g_abort_armed = false;
+    if (ex->pristine_pending) { std::map<RefKey, Outcome> drop; pristine_response(drop); ex->pristine_pending = false; }     // not collected (the plan ended early): keep the pipe in step
+    if (count_stats && asked) { if (ex->pristine_got) ST.pristine_plans++; else ST.pristine_failed++; }
     viols = ex->viols; hl = ex->h_local; hn = ex->h_neutral;
     if (logout) *logout = ex->log;
     g_last_nlog = ex->nlog;
@@ -1290,6 +1403,7 @@ static sj::Value stats_json() {
     j.set("low_level_calls", ST.low_exec);
     j.set("idn_fault_attached", ST.fault_attached); j.set("idn_fault_fired", ST.fault_fired);
     j.set("tld_sweep_probes", g_sweep_probes);
+    j.set("plans_with_pristine_process_references", ST.pristine_plans); j.set("pristine_reference_comparisons", ST.pristine_cmp); j.set("pristine_process_failed", ST.pristine_failed);
     j.set("alloc_fault_attached", ST.af_attached); j.set("alloc_fault_fired", ST.af_fired); j.set("calls_aborted_inside_library", ST.af_aborted); j.set("alloc_fault_not_comparable_with_fresh_object", ST.af_not_comparable);
     sj::Value fb = sj::Value::object(); fb.set("A_output_untouched", ST.fired_buf[0]); fb.set("B_buffer_produced", ST.fired_buf[1]); fb.set("C_converted_then_failed", ST.fired_buf[2]);
     j.set("idn_fault_fired_by_buffer_mode", fb);
@@ -1380,6 +1494,8 @@ int main(int argc, char **argv) {
     setvbuf(stdout, nullptr, _IOLBF, 0);
     string prop = arg(argc, argv, "--prop", "C13"), cfg = arg(argc, argv, "--cfg", "nofault");
     uint64_t seed = strtoull(arg(argc, argv, "--seed", "20261001"), nullptr, 10);
+    // before the first library call of this process: the pristine-reference service (not for the volume sweep)
+    if ((mode == "exec" || mode == "run") && cfg != "tldsweep" && !getenv("SIM_NO_ZYGOTE")) zygote_start();
 
     if (mode == "exec") {
         string path = arg(argc, argv, "--replay", "");
